@@ -425,6 +425,49 @@ func (t *decTr) decE(stmts []ast.Stmt, effects []string, end string, srcs map[st
 			elseStmts = rest
 		}
 		return "(if " + c + " then " + t.decE(thenStmts, effects, end, srcs) + " else " + t.decE(elseStmts, effects, end, srcs) + ")"
+	case *ast.SwitchStmt:
+		// `switch tag { case v: … }` is a chain of tests `tag == v` in source order; a clause's body falls through to
+		// what follows the switch
+		if x.Init != nil || x.Tag == nil {
+			failf(x, "unsupported switch (init statement or no tag)")
+		}
+		t.srcs = srcs
+		tag := exprKey2(x.Tag)
+		rest := stmts[1:]
+		var deflt []ast.Stmt
+		deflt = rest
+		type arm struct {
+			c    string
+			body []ast.Stmt
+		}
+		var arms []arm
+		for _, cs := range x.Body.List {
+			cc := cs.(*ast.CaseClause)
+			for _, bs := range cc.Body {
+				if br, ok := bs.(*ast.BranchStmt); ok && (br.Tok == token.FALLTHROUGH || br.Tok == token.BREAK) {
+					failf(bs, "unsupported break/fallthrough in a switch")
+				}
+			}
+			body := append(append([]ast.Stmt{}, cc.Body...), restIfFallsThrough(cc.Body, rest)...)
+			if cc.List == nil {
+				deflt = body
+				continue
+			}
+			var cs2 []string
+			for _, v := range cc.List {
+				cs2 = append(cs2, t.hole(tag+" == "+exprKey2(v)+t.srcSuffix(x.Tag)))
+			}
+			c := cs2[0]
+			if len(cs2) > 1 {
+				c = "(" + strings.Join(cs2, " || ") + ")"
+			}
+			arms = append(arms, arm{c, body})
+		}
+		out := t.decE(deflt, effects, end, srcs)
+		for i := len(arms) - 1; i >= 0; i-- {
+			out = "(if " + arms[i].c + " then " + t.decE(arms[i].body, effects, end, srcs) + " else " + out + ")"
+		}
+		return out
 	case *ast.RangeStmt:
 		// the loop's exit: the one `if c { … return … }` of its body (other statements of the body are bookkeeping)
 		var exit *ast.IfStmt
@@ -554,6 +597,10 @@ var decJobs = []decJob{
 	{"pkg/parser/method.go", "Parser", "parseMethods", "parseMethods", "", true, ""},
 	{"pkg/builder/assignment.go", "assignmentBuilder", "structFieldAndStructGettersAndFields", "candidateHandler", "", false, "=handler"},
 	{"pkg/builder/assignment.go", "assignmentBuilder", "structFieldAndStructGettersAndFields", "fieldDefault", "", false, ""},
+	{"pkg/parser/comment.go", "Parser", "parseNotationInComments", "notationStep", "", false, "%loop"},
+	{"pkg/parser/comment.go", "Parser", "parseNotationInComments", "parseNotationsEnd", "", false, "%afterloop"},
+	{"pkg/parser/comment.go", "Parser", "lookupType", "lookupType", "", false, ""},
+	{"pkg/parser/method.go", "Parser", "parseMethod", "parseMethod", "", false, ""},
 }
 
 func genDecisions(repo string) string {
@@ -594,7 +641,17 @@ func genDecision(repo string, j decJob) string {
 				}
 			}
 		}
-		if j.lit == "%loop" {
+		if j.lit == "%afterloop" {
+			// what follows the function's first loop (the loop itself is the subject of the step skeleton)
+			for i, st := range fd.Body.List {
+				switch st.(type) {
+				case *ast.RangeStmt, *ast.ForStmt:
+					if stmts == nil {
+						stmts = fd.Body.List[i+1:]
+					}
+				}
+			}
+		} else if j.lit == "%loop" {
 			// the body of the function's first loop, as the step it performs for one element: `continue` ends the step
 			for _, st := range fd.Body.List {
 				switch l := st.(type) {
